@@ -3247,6 +3247,47 @@ fn emit_float_int_cases(sink: &mut Sink, meta: &mut Meta, tera: &Tera, rng: &mut
     sink.count - before
 }
 
+
+// ------------------------------------------------------------------ (O) ordering operators on containers and mixed kinds
+
+/// `x op y` for the four ordering operators over every ordered pair of a pool of arrays (equal
+/// prefixes followed by comparable / incomparable elements, nested, empty, different lengths),
+/// maps, strings, numbers, bools and none: a pair the documentation does not order is an error,
+/// never a coerced result.
+fn emit_ordering_cases(sink: &mut Sink, meta: &mut Meta, tera: &Tera, rng: &mut Rng, thorough: bool) -> usize {
+    let before = sink.count;
+    let u = |z: u64| Value::from(z);
+    let a = |v: Vec<Value>| Value::from(v);
+    let mut m1 = tera::Map::new();
+    m1.insert("a".into(), u(1));
+    let mut m2 = tera::Map::new();
+    m2.insert("a".into(), u(2));
+    let pool: Vec<Value> = vec![
+        a(vec![u(1), Value::from("a")]), a(vec![u(1), u(2)]), a(vec![u(1), Value::none()]), a(vec![u(2), Value::from("x")]), a(vec![u(1), u(5)]),
+        a(vec![u(1), Value::from(true)]), a(vec![a(vec![u(1)]), a(vec![Value::from("a")])]), a(vec![a(vec![u(1)]), a(vec![u(2)])]), a(vec![]), a(vec![u(1)]),
+        a(vec![u(1), u(2), u(3)]), a(vec![Value::from("a"), Value::from("b")]), a(vec![Value::from("a"), u(1)]), a(vec![Value::from(1.5f64), u(1)]),
+        a(vec![Value::from(m1.clone())]), a(vec![Value::from(m2.clone())]),
+        Value::from(m1), Value::from(m2), Value::from("a"), Value::from("1"), u(1), Value::from(1.0f64), Value::from(true), Value::none(),
+    ];
+    let ops = [Bop::Lt, Bop::Le, Bop::Gt, Bop::Ge];
+    for (i, x) in pool.iter().enumerate() {
+        for (j, y) in pool.iter().enumerate() {
+            if !thorough && (i + 2 * j) % 3 == 2 && i >= 16 && j >= 16 {
+                continue;
+            }
+            let env = vec![("x".to_string(), x.clone()), ("y".to_string(), y.clone())];
+            // one operator per case: an error of one must not hide the value of another
+            let o = ops[(i + j) % 4];
+            emit_eval(sink, meta, tera, &bin(o, var("x"), var("y")), &env, false, &format!("O:x {o:?} y @ x=#{i} y=#{j}"), rng);
+            if thorough || i < 16 && j < 16 {
+                let o2 = ops[(i + j + 1) % 4];
+                emit_eval(sink, meta, tera, &bin(o2, var("x"), var("y")), &env, false, &format!("O:x {o2:?} y @ x=#{i} y=#{j}"), rng);
+            }
+        }
+    }
+    sink.count - before
+}
+
 /// oracles on the engine alone: short-circuit of and / or / ternary, one level of undefined
 fn eval_oracles(tera: &Tera, meta: &mut Meta) {
     let check = |meta: &mut Meta, what: &str, text: &str, env: &[(String, Value)], print: bool, ok: &dyn Fn(&Outcome<Value>) -> bool| {
@@ -3468,6 +3509,8 @@ fn main() {
     meta.extra.insert("eval_jump_cases".into(), json!(eval_jump_cases));
     let eval_float_int_cases = emit_float_int_cases(&mut eval, &mut meta, &tera, &mut rng);
     meta.extra.insert("eval_float_int_cases".into(), json!(eval_float_int_cases));
+    let eval_ordering_cases = emit_ordering_cases(&mut eval, &mut meta, &tera, &mut rng, thorough);
+    meta.extra.insert("eval_ordering_cases".into(), json!(eval_ordering_cases));
     let eval_systematic = eval.count;
     // (R) random
     let vpool = value_pool();
